@@ -679,7 +679,7 @@ def extract_trace(c, tier):
     (log-like tokens with CR / TAB / Unicode blanks / numeric extremes; JSON written with escapes, blanks and other number spellings). What the patterns match and what the line
     is as JSON come from the regex / serde_json crates; Trace_Extract.tla computes the row from that with Extract.tla and demands the observed row."""
     t = tier == "thorough"
-    trace_check(c, "extract", "Trace_Extract", 20000 if t else 4000, "extract", "random definitions x lines vs Extract.tla (trace)", constants={"Dev": set()},
+    trace_check(c, "extract", "Trace_Extract", 30000 if t else 6000, "extract", "random definitions x lines vs Extract.tla (trace)", constants={"Dev": set()},
                 rounds=4 if t else 1, env={"TZ": "UTC"}, per_pid=True)
 
 
